@@ -27,6 +27,9 @@ func init() {
 			{"C16.R4", "q", "CRC table and register handling", c16r4},
 			{"C16.R4b", "q", "every non-empty chunk enters the CRC", c16r4b},
 			{"C13.R7", "q", "shared: hash function never replaced", c13r7},
+			{"C16.R5", "q", "value hash computed after the body is in place", c16r5},
+			{"C10.R8", "q", "shared: value hashes are taken over decompressed bytes", c10r8},
+			{"C10.R2", "q", "shared: decompress before hashing in rebuild", c10r2},
 		},
 	})
 }
